@@ -60,6 +60,8 @@ class C14x_add_prec(Lemma):
                  'B.pos_bound': 'RealFloat | PosInf', 'B.neg_bound': 'RealFloat | NegInf'}
     split = ['A.prec', 'A.exp', 'A.pos_bound', 'A.neg_bound']
     properties = ['C14']
+    # the grid contracts of contracts/c14_format.py (C14h_*), not the C05 contracts of the same targets
+    no_use = ['RealFloat___add__', 'RealFloat___neg__', 'RealFloat___abs__', 'RealFloat___gt__', 'RealFloat___lt__', 'RealFloat___ge__', 'RealFloat___le__', 'RealFloat_normalize']
     options = {'chain': True, 'opaque': {'Z': ['all', 'int']}, 'theory_light': True}
 
     def pre(A, B, a, b):
@@ -95,7 +97,8 @@ class C14x_sub_prec(Lemma):
                  'B.pos_bound': 'RealFloat | PosInf', 'B.neg_bound': 'RealFloat | NegInf'}
     split = ['A.prec', 'A.exp', 'A.pos_bound', 'A.neg_bound']
     properties = ['C14']
-    no_use = ['RealFloat.__sub__']      # inline x - y = x + (-y): the C05 contract of __sub__ does not give the result exponent
+    # C14h_* grid contracts instead of the C05 ones; x - y inlined as x + (-y) (the C05 contract of __sub__ does not give the result exponent)
+    no_use = ['RealFloat___add__', 'RealFloat___neg__', 'RealFloat___abs__', 'RealFloat___gt__', 'RealFloat___lt__', 'RealFloat___ge__', 'RealFloat___le__', 'RealFloat_normalize', 'RealFloat.__sub__']
     options = {'chain': True, 'opaque': {'Z': ['all', 'int']}, 'theory_light': True}
 
     def pre(A, B, a, b):
